@@ -21,6 +21,7 @@ import Driver.ManualCmd
 import Driver.CutCmd
 import Driver.BaseCmd
 import Driver.PersistCmd
+import Driver.FileNamesCmd
 /-
 `raindrv`: one request per line on stdin, one answer per line on stdout.
 Unknown or malformed requests answer `bad-request` (never a default value).
@@ -55,6 +56,7 @@ def dispatch (toks : List String) : String :=
       else if cmd.startsWith "manual." then manualCmd toks
       else if cmd.startsWith "cut." then cutCmd toks
       else if cmd.startsWith "base." then baseCmd toks
+      else if cmd.startsWith "fname." then fileNamesCmd toks
       else none
     match r with
     | some s => s
